@@ -71,6 +71,9 @@ type VC struct {
 	curFunc   *ssa.Function
 	abstracted map[string]map[string]bool // func -> set of abstracted callee descriptions
 	inlined    map[string]map[string]bool
+	// functions whose contract (written in /repo) was applied at a call site; those not verified by the running
+	// check are assumptions of that check and are listed as such
+	usedRepoContracts map[*ssa.Function]bool
 	pathCount  int
 	maxPaths   int
 	funcsDone  []string
@@ -90,7 +93,7 @@ func newVC() *VC {
 		gglobals: map[string]*GhostGlobal{}, ufs: map[string]*UFDecl{}, opaque: map[string]bool{}, effectFree: map[string]bool{},
 		leafCache: map[string][]leaf{}, arrSorts: map[string]Sort{}, arrInfo: map[string]arrInfo{}, needCard: map[string]Sort{},
 		strLits: map[string]int{"": 0}, typeIDs: map[string]int{}, funcIDs: map[string]int{},
-		abstracted: map[string]map[string]bool{}, inlined: map[string]map[string]bool{}, maxPaths: 20000,
+		abstracted: map[string]map[string]bool{}, inlined: map[string]map[string]bool{}, maxPaths: 20000, usedRepoContracts: map[*ssa.Function]bool{},
 		canaries: map[string][]*Obligation{}, eventFired: map[*Event]int{}, ssaPkgs: map[string]*ssa.Package{}, loopHeads: map[*ssa.Function]map[*ssa.BasicBlock]*loopInfo{},
 	}
 }
